@@ -9,6 +9,7 @@ digest from every subprocess (different PYTHONHASHSEED, different orders, unrela
 must equal the model's single answer.
 -/
 import HtmlVerif.Model.HeadContent
+import HtmlVerif.Props.C10
 
 namespace HtmlVerif.C18
 open HtmlVerif
@@ -47,5 +48,44 @@ theorem C18_headContent_error (cfg : Cfg) (H : Str → Str) (r : Nat) (args : No
 
 example : (headContent ⟨[], [], [], []⟩ (fun s => s) 0 (.cons (.text ['x']) .nil)).toOption.isSome = true := by
   decide +kernel
+
+end HtmlVerif.C18
+
+namespace HtmlVerif.C18
+open HtmlVerif
+
+/-- the order of every dependency list the library reports is a function of positions only: names in order
+    of first occurrence (never a sort, never a hash order), each name once -/
+theorem C18_order_is_positional (ds : List Node) :
+    (resolve ds).map Node.depName = dedupKeepFirst (ds.map Node.depName)
+      ∧ ((resolve ds).map Node.depName).Nodup :=
+  ⟨C10.C10_deps_names ds, by rw [C10.C10_deps_names]; exact dedupKeepFirst_nodup _⟩
+
+/-- equal head_content payloads are included once per document, different payloads are never merged:
+    after resolution every name that occurred is represented exactly once, and (by `C18_name_iff_content`)
+    names coincide exactly when the rendered payloads do -/
+theorem C18_once_per_document (ds : List Node) (d : Node) (h : d ∈ ds) :
+    ((resolve ds).filter fun r => r.depName == d.depName).length = 1 := by
+  have hn := (C18_order_is_positional ds).2
+  have hc : d.depName ∈ (resolve ds).map Node.depName := by
+    rw [(C18_order_is_positional ds).1, mem_dedupKeepFirst]; exact List.mem_map_of_mem h
+  generalize resolve ds = rs at hn hc
+  induction rs with
+  | nil => simp at hc
+  | cons r rs ih =>
+    simp only [List.map_cons, List.nodup_cons] at hn
+    by_cases e : r.depName = d.depName
+    · have hne : ∀ x ∈ rs, ¬ x.depName = d.depName := by
+        intro x hx e'
+        exact hn.1 (by rw [e, ← e']; exact List.mem_map_of_mem hx)
+      have hnil : rs.filter (fun r => r.depName == d.depName) = [] := by
+        rw [List.filter_eq_nil_iff]; intro x hx; simpa using hne x hx
+      simp [List.filter_cons, e, hnil]
+    · have hc' : d.depName ∈ rs.map Node.depName := by
+        simp only [List.map_cons, List.mem_cons] at hc
+        rcases hc with hc | hc
+        · exact absurd hc.symm e
+        · exact hc
+      simp [List.filter_cons, e, ih hn.2 hc']
 
 end HtmlVerif.C18
